@@ -4712,6 +4712,799 @@ fn tie(out: &mut Out, work: &str, seed: u64, thorough: bool) {
 	out.flush();
 }
 
+/// Run `resets` (C17: the ops that move the chain head BACKWARDS or wipe state - `reset_chain_head`
+/// (owner api), and the PIBD-failure sequence of state_sync.rs: `reset_pibd_head`,
+/// `reset_chain_head_to_genesis`, `reset_prune_lists` - under one-view readers).
+/// Phase 1: a node holding a chain of 12-16 blocks with transactions; a writer thread loops:
+/// `reset_chain_head(block k, rewind_headers)` for a random k and flag, then delivers the blocks above
+/// k again; a second writer calls `validate(fast)` / `compact()` / `get_merkle_proof`; two readers loop over
+/// the `View` oracle (under `txhashset.read()`: MMR roots and sizes = those of the LMDB head header),
+/// the strong header view (under `header_pmmr.read()`), and head-names-a-stored-block.  After the join
+/// everything is delivered again: state = what it was, validate, close, REOPEN, validate.
+/// Phase 2: the progress marker is set (`save_pibd_head(block k)`, as `Desegmenter::check_progress`
+/// does), then the PIBD-failure sequence runs while the readers loop; afterwards: head = genesis, the
+/// views hold, `store().pibd_head()` must be the genesis tip (what `reset_pibd_head` is for: otherwise
+/// Chain::init of the next start takes the "PIBD in progress" branch of setup_head and skips the rewind
+/// and root validation of the head); the blocks are delivered again: state = twin.
+fn resets(out: &mut Out, work: &str, seed: u64, thorough: bool) {
+	for (op, class) in [
+		("reset_chain_head", "write"),
+		("reset_chain_head_to_genesis", "write"),
+		("reset_prune_lists", "write"),
+		("reset_pibd_head", "other"),
+		("validate", "write"),
+		("compact", "write"),
+		("get_merkle_proof", "write"),
+		("process_block", "write"),
+		("txhashset", "lockfree"),
+		("header_pmmr", "lockfree"),
+	] {
+		out.line(&format!("conc opclass {}", op), class);
+	}
+	let rounds = if thorough { 6 } else { 2 };
+	let mut stats: BTreeMap<String, u64> = BTreeMap::new();
+	let mut rng = Rng::new(seed ^ 0x4E5E7);
+	for round in 0..rounds {
+		let tag = format!("#ORACLE-FAIL C17 resets round={} seed={}:", round, seed);
+		let kit = Kit::new(&format!("{}/rs_builder{}", work, round));
+		let mut b = Builder { kit, states: BTreeMap::new(), stats: BTreeMap::new(), reserved: Default::default() };
+		let mut s0 = BTreeMap::new();
+		s0.insert(0usize, (0u64, true));
+		b.states.insert(0, s0);
+		let top = rng.range(12, 17);
+		let mut main = vec![0usize];
+		let mut tip = 0usize;
+		for h in 1..=top {
+			let d = rng.range(1, 4);
+			// even rounds: the block at height 4 spends the genesis coinbase output; odd rounds: nobody does
+			if round % 2 == 1 {
+				b.reserved.insert(0);
+			}
+			let forced = if round % 2 == 0 && h == 4 {
+				let v = b.kit.outs[0].value;
+				let specs = vec![TxSpec { inputs: vec![0], outputs: vec![(v / 3, None), (v - v / 3 - 2, None)], kernel: KSpec::Plain(2) }];
+				match b.kit.new_block(tip, d, &specs) {
+					Ok(id) => {
+						let st = state_after(&b.kit, &b.states[&tip], &b.kit.blks[id].block);
+						b.states.insert(id, st);
+						Some(id)
+					}
+					Err(_) => None,
+				}
+			} else {
+				None
+			};
+			match forced.or_else(|| b.add(&mut rng, tip, d, if h > 4 { 2 } else { 0 })) {
+				Some(id) => {
+					tip = id;
+					main.push(id);
+				}
+				None => panic!("resets: cannot build the chain"),
+			}
+		}
+		let kit = &b.kit;
+		out.raw("chain reset");
+		for l in kit.out_lines(0) {
+			out.raw(&l);
+		}
+		for id in 0..kit.blks.len() {
+			out.raw(&kit.blk_line(id));
+		}
+		let name = format!("rs{}", round);
+		out.raw(&format!("chain new {}", name));
+		let subj = Subject::new(&format!("{}/rs_subject{}", work, round), &kit.genesis);
+		for id in main[1..].iter() {
+			let r = subj.deliver_block(&kit.blks[*id].block);
+			out.line(&format!("chain deliver {} b{}", name, id), &r);
+		}
+		let full_obs = subj.obs(kit);
+		out.line(&format!("chain obs {}", name), &full_obs);
+		let by_hash: Arc<HashMap<Hash, usize>> = Arc::new(kit.by_hash.clone());
+		let parent: Arc<Vec<Option<usize>>> = Arc::new(kit.blks.iter().map(|r| r.parent).collect());
+		let heights: Arc<Vec<u64>> = Arc::new(kit.blks.iter().map(|r| r.height).collect());
+		let hashes: Arc<Vec<Hash>> = Arc::new(kit.blks.iter().map(|r| r.block.hash()).collect());
+		let blocks: Arc<Vec<Block>> = Arc::new(main.iter().map(|i| kit.blks[*i].block.clone()).collect());
+		let out_ids: Arc<Vec<grin_core::core::OutputIdentifier>> = Arc::new(
+			kit.outs.iter().map(|o| grin_core::core::OutputIdentifier::new(if o.coinbase { grin_core::core::OutputFeatures::Coinbase } else { grin_core::core::OutputFeatures::Plain }, &o.commit)).collect(),
+		);
+		let subj = Arc::new(subj);
+		let mut stuck = false;
+
+		for phase in 1..=2u32 {
+			let done = Arc::new(AtomicBool::new(false));
+			let progress = Arc::new(AtomicUsize::new(0));
+			let (txc, rxc) = mpsc::channel::<(usize, BTreeMap<String, u64>, Vec<String>)>();
+			let n_threads;
+			if phase == 1 {
+				n_threads = 4;
+				// W1: reset + redeliver
+				{
+					let (subj, blocks, progress, txc, done) = (subj.clone(), blocks.clone(), progress.clone(), txc.clone(), done.clone());
+					let mut prng = Rng::new(rng.next() ^ 0x11);
+					let iters = if thorough { 30 } else { 12 };
+					std::thread::spawn(move || {
+						setup_globals();
+						let mut cnt: BTreeMap<String, u64> = BTreeMap::new();
+						let mut bad: Vec<String> = vec![];
+						let top = blocks.len() - 1;
+						for _ in 0..iters {
+							let k = prng.range(1, top as u64 - 1) as usize;
+							let rh = prng.chance(1, 2);
+							let r = std::panic::catch_unwind(AssertUnwindSafe(|| {
+								let r = subj.c().reset_chain_head(grin_chain::Tip::from_header(&blocks[k].header), rh);
+								let mut res = vec![];
+								for i in (k + 1)..=top {
+									res.push(subj.deliver_block(&blocks[i]));
+								}
+								(r, res)
+							}));
+							match r {
+								Ok((r, res)) => {
+									*cnt.entry(format!("reset_chain_head(rewind_headers={}):{}", rh, cls(&r))).or_insert(0) += 1;
+									if let Err(e) = &r {
+										bad.push(format!("reset_chain_head(block at height {}, rewind_headers={}) failed: {}", k, rh, error_class(e)));
+									}
+									for (j, x) in res.iter().enumerate() {
+										*cnt.entry(format!("redeliver:{}", x)).or_insert(0) += 1;
+										if !x.starts_with("ok") && x != "err:Unfit" {
+											bad.push(format!("after reset_chain_head to height {} (rewind_headers={}) the block at height {} is refused: {}", k, rh, k + 1 + j, x));
+										}
+									}
+								}
+								Err(_) => bad.push(format!("reset_chain_head(height {}, rewind_headers={}) or the re-delivery panicked", k, rh)),
+							}
+							progress.fetch_add(1, Ordering::SeqCst);
+							if bad.len() > 4 {
+								break;
+							}
+						}
+						done.store(true, Ordering::SeqCst);
+						let _ = txc.send((0, cnt, bad));
+					});
+				}
+				// W2: other write-lock ops
+				{
+					let (subj, blocks, progress, txc, done, out_ids) = (subj.clone(), blocks.clone(), progress.clone(), txc.clone(), done.clone(), out_ids.clone());
+					let mut prng = Rng::new(rng.next() ^ 0x22);
+					std::thread::spawn(move || {
+						setup_globals();
+						let mut cnt: BTreeMap<String, u64> = BTreeMap::new();
+						let mut bad: Vec<String> = vec![];
+						let mut n = 0;
+						while !done.load(Ordering::SeqCst) && n < 3000 {
+							n += 1;
+							let r = std::panic::catch_unwind(AssertUnwindSafe(|| match prng.below(3) {
+								0 => ("validate", cls(&subj.c().validate(true))),
+								1 => ("compact", cls(&subj.c().compact())),
+								_ => ("get_merkle_proof", cls(&subj.c().get_merkle_proof(out_ids[prng.below(out_ids.len() as u64) as usize], &prng.pick(&blocks[1..]).header))),
+							}));
+							match r {
+								Ok((nm, k)) => {
+									*cnt.entry(format!("{}:{}", nm, k)).or_insert(0) += 1;
+									if nm != "get_merkle_proof" && k != "ok" {
+										bad.push(format!("{} failed while another thread resets the head: {}", nm, k));
+									}
+								}
+								Err(_) => bad.push("validate / compact / get_merkle_proof panicked".to_string()),
+							}
+							progress.fetch_add(1, Ordering::SeqCst);
+							std::thread::sleep(Duration::from_micros(prng.range(50, 800)));
+							if bad.len() > 4 {
+								break;
+							}
+						}
+						let _ = txc.send((1, cnt, bad));
+					});
+				}
+			} else {
+				n_threads = 3;
+				// the PIBD-failure sequence of state_sync.rs
+				let (subj, blocks, progress, txc, done) = (subj.clone(), blocks.clone(), progress.clone(), txc.clone(), done.clone());
+				let k = rng.range(2, top - 1) as usize;
+				std::thread::spawn(move || {
+					setup_globals();
+					let mut cnt: BTreeMap<String, u64> = BTreeMap::new();
+					let mut bad: Vec<String> = vec![];
+					let r = std::panic::catch_unwind(AssertUnwindSafe(|| -> Result<(), String> {
+						let c = subj.c();
+						// the progress marker, as Desegmenter::check_progress saves it
+						{
+							let store = c.store();
+							let mut batch = store.batch().map_err(|e| format!("batch: {:?}", e))?;
+							batch.save_pibd_head(&grin_chain::Tip::from_header(&blocks[k].header)).map_err(|e| format!("save_pibd_head: {:?}", e))?;
+							batch.commit().map_err(|e| format!("commit: {:?}", e))?;
+						}
+						std::thread::sleep(Duration::from_millis(2));
+						c.reset_pibd_head().map_err(|e| format!("reset_pibd_head: {}", error_class(&e)))?;
+						c.reset_chain_head_to_genesis().map_err(|e| format!("reset_chain_head_to_genesis: {}", error_class(&e)))?;
+						c.reset_prune_lists().map_err(|e| format!("reset_prune_lists: {}", error_class(&e)))?;
+						std::thread::sleep(Duration::from_millis(2));
+						Ok(())
+					}));
+					match r {
+						Ok(Ok(())) => *cnt.entry("pibd-failure-sequence:ok".into()).or_insert(0) += 1,
+						Ok(Err(e)) => bad.push(format!("the PIBD-failure sequence (marker at height {}) failed: {}", k, e)),
+						Err(_) => bad.push("the PIBD-failure sequence panicked".to_string()),
+					}
+					progress.fetch_add(1, Ordering::SeqCst);
+					done.store(true, Ordering::SeqCst);
+					let _ = txc.send((0, cnt, bad));
+				});
+			}
+			// readers
+			for r in 0..2usize {
+				let (subj, done, progress, txc) = (subj.clone(), done.clone(), progress.clone(), txc.clone());
+				let (by_hash, parent, heights, hashes) = (by_hash.clone(), parent.clone(), heights.clone(), hashes.clone());
+				std::thread::spawn(move || {
+					setup_globals();
+					let mut cnt: BTreeMap<String, u64> = BTreeMap::new();
+					let mut bad: Vec<String> = vec![];
+					let mut n = 0u64;
+					loop {
+						let fin = done.load(Ordering::SeqCst);
+						n += 1;
+						let c = subj.c();
+						let res = std::panic::catch_unwind(AssertUnwindSafe(|| -> Option<String> {
+							{
+								let ts = c.txhashset();
+								let g = ts.read();
+								let hh = c.head_header().ok()?;
+								let roots = g.roots().ok()?;
+								// (the genesis header does not carry the roots of the genesis MMRs: sizes only at height 0)
+								let ok = (hh.height == 0 || (roots.kernel_root == hh.kernel_root && roots.rproof_root == hh.range_proof_root && roots.output_root(&hh) == hh.output_root))
+									&& g.kernel_mmr_size() == hh.kernel_mmr_size
+									&& g.output_mmr_size() == hh.output_mmr_size;
+								if !ok {
+									return Some(format!(
+										"view under txhashset.read(): the LMDB head header is {} @ {} (kernel MMR size {}, output MMR size {}) but the MMR state under the guard has kernel size {}, output size {}",
+										hh.hash(), hh.height, hh.kernel_mmr_size, hh.output_mmr_size, g.kernel_mmr_size(), g.output_mmr_size()
+									));
+								}
+							}
+							if let Some(m) = strong_header_view(c, &by_hash, &parent, &heights, &hashes) {
+								return Some(m);
+							}
+							let h = c.head().ok()?;
+							if h.height > 0 && c.get_block(&h.last_block_h).is_err() {
+								return Some(format!("head {} @ {} names a block that is not stored", h.last_block_h, h.height));
+							}
+							None
+						}));
+						match res {
+							Ok(Some(m)) => {
+								if bad.len() < 2 {
+									bad.push(m);
+								}
+							}
+							Ok(None) => {}
+							Err(_) => {
+								if bad.len() < 2 {
+									bad.push("a reader panicked".into());
+								}
+							}
+						}
+						progress.fetch_add(1, Ordering::SeqCst);
+						if fin {
+							break;
+						}
+						if n % 4 == 0 {
+							std::thread::yield_now();
+						}
+					}
+					cnt.insert(format!("reader-views:phase{}", phase), n);
+					let _ = txc.send((10 + r, cnt, bad));
+				});
+			}
+			drop(txc);
+			let stall = Duration::from_secs(if thorough { 120 } else { 60 });
+			let mut finished = 0usize;
+			let mut last = (progress.load(Ordering::SeqCst), Instant::now());
+			while finished < n_threads {
+				match rxc.recv_timeout(Duration::from_millis(300)) {
+					Ok((i, cnt, bad)) => {
+						finished += 1;
+						for (k, v) in cnt {
+							*stats.entry(format!("resets:{}", k)).or_insert(0) += v;
+						}
+						for m in bad {
+							out.raw(&format!("{} phase {} ({}): {}", tag, phase, if i >= 10 { "reader" } else { "writer" }, m));
+						}
+					}
+					Err(_) => {
+						let c = progress.load(Ordering::SeqCst);
+						if c != last.0 {
+							last = (c, Instant::now());
+							continue;
+						}
+						if last.1.elapsed() < stall {
+							continue;
+						}
+						out.raw(&format!("#ORACLE-FAIL C17 deadlock resets round={} phase={} seed={}: no step of any thread completed for {:?}", round, phase, seed, stall));
+						out.flush();
+						std::process::exit(0);
+					}
+				}
+			}
+			let c = subj.c();
+			let mut verdict = "ok".to_string();
+			if phase == 2 {
+				let h = c.head().unwrap();
+				if h.height != 0 {
+					out.raw(&format!("{} after reset_chain_head_to_genesis the head is at height {}", tag, h.height));
+					verdict = "head-not-genesis".into();
+				}
+				match c.store().pibd_head() {
+					Ok(t) if t.height == 0 => {}
+					Ok(t) => {
+						out.raw(&format!(
+							"#KNOWN-PROBE C17 reset-pibd-head-not-committed: resets round={} seed={}: save_pibd_head(block at height {}) committed (as Desegmenter::check_progress does), then Chain::reset_pibd_head() answered Ok - store().pibd_head() is still {} @ {}: reset_pibd_head opens a batch, saves the genesis tip into it and returns without batch.commit()",
+							round, seed, t.height, t.last_block_h, t.height
+						));
+						verdict = "pibd-head-not-reset".into();
+					}
+					Err(e) => out.raw(&format!("{} pibd_head() failed: {:?}", tag, e)),
+				}
+			}
+			// deliver everything again: the node must be where it was
+			let genesis_commit = kit.outs[0].commit;
+			let mut genesis_probe = false;
+			for i in 1..blocks.len() {
+				let r = subj.deliver_block(&blocks[i]);
+				if !r.starts_with("ok") && r != "err:Unfit" {
+					let ins: Vec<grin_core::core::CommitWrapper> = blocks[i].inputs().into();
+					if phase == 2 && r == "err:AlreadySpent" && ins.iter().any(|x| x.commitment() == genesis_commit) {
+						// the (repaired) defect C17-reset-to-genesis-leaves-genesis-spent
+						genesis_probe = true;
+						let v = c.validate(false);
+						out.raw(&format!(
+							"#KNOWN-PROBE C17 reset-to-genesis-leaves-genesis-spent: resets round={} seed={}: chain of {} blocks whose block at height {} spends the genesis coinbase output; reset_pibd_head, reset_chain_head_to_genesis, reset_prune_lists all Ok (head = genesis); the same blocks delivered again: heights 1..{} accepted, the block at height {} refused AlreadySpent; the node is at [{}], validate(false) = {}",
+							round, seed, blocks.len() - 1, i, i - 1, i, subj.obs(kit), cls(&v)
+						));
+					} else {
+						out.raw(&format!("{} phase {}: after the resets the block at height {} is refused: {}", tag, phase, i, r));
+					}
+					verdict = "block-refused".into();
+					break;
+				}
+			}
+			let now = subj.obs(kit);
+			if !genesis_probe {
+				out.line(&format!("chain obs {}", name), &now);
+				if now != full_obs {
+					out.raw(&format!("{} phase {}: after the resets and the re-delivery the node is at [{}], it was at [{}]", tag, phase, now, full_obs));
+					verdict = "state-differs".into();
+				}
+				if let Err(e) = c.validate(false) {
+					out.raw(&format!("{} phase {}: validate fails after the resets and the re-delivery: {}", tag, phase, error_class(&e)));
+					verdict = "validate-fails".into();
+				}
+			} else {
+				verdict = "genesis-output-left-spent".into();
+				stuck = true;
+			}
+			out.line(&format!("conc resets round={} phase={} top={}", round, phase, top), &verdict);
+			out.flush();
+		}
+		// close, REOPEN, validate
+		if stuck {
+			continue;
+		}
+		match Arc::try_unwrap(subj) {
+			Ok(mut s) => match s.reopen() {
+				Ok(()) => {
+					if let Some(m) = strong_header_view(s.c(), &by_hash, &parent, &heights, &hashes) {
+						out.raw(&format!("{} after the restart: {}", tag, m));
+					}
+					if let Err(e) = s.c().validate(false) {
+						out.raw(&format!("{} validate fails after the restart: {}", tag, error_class(&e)));
+					}
+					out.line(&format!("chain obs {}", name), &s.obs(kit));
+				}
+				Err(e) => out.raw(&format!("{} the node does not restart after the resets: {}", tag, e)),
+			},
+			Err(_) => out.raw(&format!("{} harness: the subject is still shared", tag)),
+		}
+	}
+	for (k, v) in &stats {
+		out.raw(&format!("#STAT {}={}", k, v));
+	}
+	out.flush();
+}
+
+/// everything the ops of the pairwise matrix need
+struct MatrixCtx {
+	chain: Chain,
+	trunk: Vec<Block>,
+	fork: Vec<Block>,
+	txs: Vec<Transaction>,
+	commits: Vec<Commitment>,
+	out_ids: Vec<grin_core::core::OutputIdentifier>,
+	kernels: Vec<Commitment>,
+	template: Block,
+}
+
+/// the public ops of the regenerated table that can be called any number of times on a live node and
+/// leave it where it was (names = table names; a composite entry calls `segmenter()` / `desegmenter()`
+/// first and is listed with those)
+const MATRIX_OPS: &[&str] = &[
+	"invalidate_header", "reset_chain_head", "reset_prune_lists", "reset_pibd_head", "process_block", "is_known",
+	"process_block_header", "sync_block_headers", "is_orphan", "orphans_evicted_len", "get_unspent",
+	"get_unspent_output_at", "validate_tx", "validate_inputs", "verify_coinbase_maturity", "verify_tx_lock_height",
+	"validate", "set_prev_root_only", "set_txhashset_roots", "get_merkle_proof", "get_merkle_proof_for_pos",
+	"txhashset_read", "segmenter", "desegmenter", "txhashset_archive_header", "txhashset_archive_header_header_only",
+	"fork_point", "check_txhashset_needed", "compact", "get_last_n_output", "get_last_n_rangeproof", "get_last_n_kernel",
+	"get_output_pos", "unspent_outputs_by_pmmr_index", "block_height_range_to_pmmr_indices", "orphans_len", "head",
+	"tail", "header_head", "head_header", "get_block", "get_tail", "get_block_header", "get_previous_header",
+	"get_block_sums", "get_header_by_height", "get_header_for_output", "get_kernel_height",
+	"get_header_for_kernel_index", "get_locator_hashes", "difficulty_iter", "block_exists",
+	"Segmenter::kernel_segment", "Segmenter::bitmap_segment", "Segmenter::output_segment",
+	"Segmenter::rangeproof_segment", "Desegmenter::next_desired_segments", "Desegmenter::check_progress",
+];
+
+/// table names run by one call of matrix op `i` (for the model replay)
+fn matrix_table_ops(name: &str) -> Vec<&str> {
+	if name.starts_with("Segmenter::") {
+		vec!["segmenter", name]
+	} else if name.starts_with("Desegmenter::") {
+		vec!["txhashset_archive_header_header_only", "desegmenter", name]
+	} else if name == "sync_block_headers" {
+		vec!["header_head", "sync_block_headers"]
+	} else if name == "reset_chain_head" || name == "get_locator_hashes" {
+		vec!["head_header", name]
+	} else if name == "check_txhashset_needed" {
+		vec!["fork_point", name]
+	} else {
+		vec![name]
+	}
+}
+
+fn matrix_call(m: &MatrixCtx, name: &str, k: u64) -> String {
+	use grin_chain::types::SyncState;
+	let c = &m.chain;
+	let pick = |n: usize| (k as usize * 7 + 3) % n.max(1);
+	let ok = |r: bool| if r { "ok".to_string() } else { "err".to_string() };
+	match name {
+		"invalidate_header" => cls(&c.invalidate_header(Hash::from_vec(&[(k % 251) as u8 + 1; 32]))),
+		"reset_chain_head" => match c.head_header() {
+			Ok(h) => cls(&c.reset_chain_head(grin_chain::Tip::from_header(&h), k % 2 == 0)),
+			Err(e) => format!("err:{}", error_class(&e)),
+		},
+		"reset_prune_lists" => cls(&c.reset_prune_lists()),
+		"reset_pibd_head" => cls(&c.reset_pibd_head()),
+		"process_block" => {
+			let b = if k % 2 == 0 { &m.fork[pick(m.fork.len())] } else { &m.trunk[1 + pick(m.trunk.len() - 1)] };
+			match c.process_block(b.clone(), Options::SKIP_POW) {
+				Ok(_) => "ok".into(),
+				Err(e) => format!("err:{}", error_class(&e)),
+			}
+		}
+		"is_known" => cls(&c.is_known(&m.trunk[1 + pick(m.trunk.len() - 1)].header)),
+		"process_block_header" => cls(&c.process_block_header(&m.fork[pick(m.fork.len())].header, Options::SKIP_POW)),
+		"sync_block_headers" => match c.header_head() {
+			Ok(hh) => {
+				let a = 1 + pick(m.trunk.len() - 1);
+				let e = (a + 3).min(m.trunk.len());
+				let hs: Vec<BlockHeader> = m.trunk[a..e].iter().map(|b| b.header.clone()).collect();
+				cls(&c.sync_block_headers(&hs, hh, Options::SKIP_POW))
+			}
+			Err(e) => format!("err:{}", error_class(&e)),
+		},
+		"is_orphan" => ok(c.is_orphan(&m.fork[0].hash()) || true),
+		"orphans_evicted_len" => ok(c.orphans_evicted_len() < usize::MAX),
+		"get_unspent" => cls(&c.get_unspent(m.commits[pick(m.commits.len())])),
+		"get_unspent_output_at" => cls(&c.get_unspent_output_at(pick(20) as u64)),
+		"validate_tx" => cls(&c.validate_tx(&m.txs[pick(m.txs.len())])),
+		"validate_inputs" => cls(&c.validate_inputs(&m.txs[pick(m.txs.len())].inputs())),
+		"verify_coinbase_maturity" => cls(&c.verify_coinbase_maturity(&m.txs[pick(m.txs.len())].inputs())),
+		"verify_tx_lock_height" => cls(&c.verify_tx_lock_height(&m.txs[pick(m.txs.len())])),
+		"validate" => cls(&c.validate(true)),
+		"set_prev_root_only" => {
+			let mut h = m.template.header.clone();
+			cls(&c.set_prev_root_only(&mut h))
+		}
+		"set_txhashset_roots" => {
+			let mut b = m.template.clone();
+			cls(&c.set_txhashset_roots(&mut b))
+		}
+		"get_merkle_proof" => cls(&c.get_merkle_proof(m.out_ids[pick(m.out_ids.len())], &m.trunk[1 + pick(m.trunk.len() - 1)].header)),
+		"get_merkle_proof_for_pos" => cls(&c.get_merkle_proof_for_pos(m.commits[pick(m.commits.len())])),
+		"txhashset_read" => cls(&c.txhashset_read(m.trunk[1 + pick(m.trunk.len() - 1)].hash())),
+		"segmenter" => cls(&c.segmenter()),
+		"desegmenter" => match c.txhashset_archive_header_header_only() {
+			Ok(h) => cls(&c.desegmenter(&h)),
+			Err(e) => format!("err:{}", error_class(&e)),
+		},
+		"txhashset_archive_header" => cls(&c.txhashset_archive_header()),
+		"txhashset_archive_header_header_only" => cls(&c.txhashset_archive_header_header_only()),
+		"fork_point" => cls(&c.fork_point()),
+		"check_txhashset_needed" => match c.fork_point() {
+			Ok(fp) => cls(&c.check_txhashset_needed(&fp)),
+			Err(e) => format!("err:{}", error_class(&e)),
+		},
+		"compact" => cls(&c.compact()),
+		"get_last_n_output" => ok(c.get_last_n_output(3).len() <= 3),
+		"get_last_n_rangeproof" => ok(c.get_last_n_rangeproof(3).len() <= 3),
+		"get_last_n_kernel" => ok(c.get_last_n_kernel(3).len() <= 3),
+		"get_output_pos" => cls(&c.get_output_pos(&m.commits[pick(m.commits.len())])),
+		"unspent_outputs_by_pmmr_index" => cls(&c.unspent_outputs_by_pmmr_index(1, 30, None)),
+		"block_height_range_to_pmmr_indices" => cls(&c.block_height_range_to_pmmr_indices(pick(5) as u64, None)),
+		"orphans_len" => ok(c.orphans_len() <= grin_chain::MAX_ORPHAN_SIZE + 1),
+		"head" => cls(&c.head()),
+		"tail" => cls(&c.tail()),
+		"header_head" => cls(&c.header_head()),
+		"head_header" => cls(&c.head_header()),
+		"get_block" => cls(&c.get_block(&m.trunk[1 + pick(m.trunk.len() - 1)].hash())),
+		"get_tail" => cls(&c.get_tail()),
+		"get_block_header" => cls(&c.get_block_header(&m.trunk[1 + pick(m.trunk.len() - 1)].hash())),
+		"get_previous_header" => cls(&c.get_previous_header(&m.trunk[1 + pick(m.trunk.len() - 1)].header)),
+		"get_block_sums" => cls(&c.get_block_sums(&m.trunk[1 + pick(m.trunk.len() - 1)].hash())),
+		"get_header_by_height" => cls(&c.get_header_by_height(pick(m.trunk.len() + 1) as u64)),
+		"get_header_for_output" => cls(&c.get_header_for_output(m.commits[pick(m.commits.len())])),
+		"get_kernel_height" => cls(&c.get_kernel_height(&m.kernels[pick(m.kernels.len())], None, None)),
+		"get_header_for_kernel_index" => cls(&c.get_header_for_kernel_index(1 + pick(12) as u64, None, None)),
+		"get_locator_hashes" => match c.head_header() {
+			Ok(h) => cls(&c.get_locator_hashes(grin_chain::Tip::from_header(&h), &[h.height, h.height / 2, 0])),
+			Err(e) => format!("err:{}", error_class(&e)),
+		},
+		"difficulty_iter" => match c.difficulty_iter() {
+			Ok(it) => ok(it.take(5).count() <= 5),
+			Err(e) => format!("err:{}", error_class(&e)),
+		},
+		"block_exists" => cls(&c.block_exists(m.trunk[1 + pick(m.trunk.len() - 1)].hash())),
+		"Segmenter::kernel_segment" | "Segmenter::bitmap_segment" | "Segmenter::output_segment" | "Segmenter::rangeproof_segment" => match c.segmenter() {
+			Ok(sg) => {
+				let id = SegmentIdentifier { height: if name.ends_with("bitmap_segment") { 0 } else { 2 }, idx: 0 };
+				match name {
+					"Segmenter::kernel_segment" => sg.kernel_segment(id).map(|_| ()).map_err(|e| error_class(&e)),
+					"Segmenter::bitmap_segment" => sg.bitmap_segment(id).map(|_| ()).map_err(|e| error_class(&e)),
+					"Segmenter::output_segment" => sg.output_segment(id).map(|_| ()).map_err(|e| error_class(&e)),
+					_ => sg.rangeproof_segment(id).map(|_| ()).map_err(|e| error_class(&e)),
+				}
+				.map(|_| "ok".to_string())
+				.unwrap_or_else(|e| format!("err:{}", e))
+			}
+			Err(e) => format!("err:{}", error_class(&e)),
+		},
+		"Desegmenter::next_desired_segments" | "Desegmenter::check_progress" => match c.txhashset_archive_header_header_only().and_then(|h| c.desegmenter(&h)) {
+			Ok(d) => {
+				let mut g = d.write();
+				match g.as_mut() {
+					Some(d) => {
+						if name.ends_with("check_progress") {
+							cls(&d.check_progress(Arc::new(SyncState::new())))
+						} else {
+							ok(d.next_desired_segments(6).len() <= 6)
+						}
+					}
+					None => "err:none".into(),
+				}
+			}
+			Err(e) => format!("err:{}", error_class(&e)),
+		},
+		_ => "unknown-op".into(),
+	}
+}
+
+/// Run `matrix` (C17, the 'no call deadlocks' clause op against op): every unordered PAIR (A, B) of
+/// the public ops of the regenerated table that can be called repeatedly on a live node (58 of the 86
+/// entries; not: the one-shot / destructive ones - txhashset_write, reset_chain_head_to_genesis,
+/// the Desegmenter install steps - which have runs of their own), A on one thread and B on another,
+/// released together by a spin gate, each called twice, on ONE long-lived Chain holding a trunk of 26
+/// blocks with transactions, a 3-block fork, with orphans, a cached segmenter and a desegmenter.
+/// Quick tier: a seeded sample of the pairs in which every op occurs at least 6 times plus every
+/// pair of two write-class ops; thorough tier: all 1711 pairs.  Oracles: both threads return within
+/// a generous bound (120 s, the pair in flight is named: `#ORACLE-FAIL C17 deadlock matrix …`),
+/// nothing panics, and at the end the node is where it was and validates.  One line per pair for the
+/// driver, which replays the two lock programs on the model's transition system (`conc pair`).
+fn matrix(out: &mut Out, work: &str, seed: u64, thorough: bool) {
+	let mut rng = Rng::new(seed ^ 0x3A7);
+	let kit = Kit::new(&format!("{}/mx_builder", work));
+	let mut b = Builder { kit, states: BTreeMap::new(), stats: BTreeMap::new(), reserved: Default::default() };
+	let mut s0 = BTreeMap::new();
+	s0.insert(0usize, (0u64, true));
+	b.states.insert(0, s0);
+	let mut main = vec![0usize];
+	let mut tip = 0usize;
+	for h in 1..=26u64 {
+		match b.add(&mut rng, tip, 3, if h > 3 { 2 } else { 0 }) {
+			Some(id) => {
+				tip = id;
+				main.push(id);
+			}
+			None => panic!("matrix: cannot build the trunk"),
+		}
+	}
+	let mut fork = vec![];
+	let mut ft = main[22];
+	for _ in 0..3 {
+		match b.add(&mut rng, ft, 1, 1) {
+			Some(id) => {
+				ft = id;
+				fork.push(id);
+			}
+			None => panic!("matrix: cannot build the fork"),
+		}
+	}
+	// transactions against the tip state: valid spends and already-spent ones
+	let kit = &b.kit;
+	let st = b.states[&tip].clone();
+	let mut txs = vec![];
+	for (o, (c, cb)) in st.iter().take(6) {
+		let rec = &kit.outs[*o];
+		if rec.value < 20 || (*cb && 27 < *c + MATURITY) {
+			continue;
+		}
+		let key = grin_keychain::ExtKeychainPath::new(4, 900 + *o as u32, 0, 0, 0).to_identifier();
+		if let Ok(tx) = make_tx(&kit.kc, &[(rec.value, rec.key_id.clone(), rec.coinbase)], &[(rec.value - 2, key)], KernelFeatures::Plain { fee: 2u32.into() }) {
+			txs.push(tx);
+		}
+	}
+	if txs.is_empty() {
+		out.raw("#ORACLE-FAIL C17 matrix harness: no transaction could be built");
+		return;
+	}
+	let prev = kit.blks[tip].block.header.clone();
+	let key_id = grin_keychain::ExtKeychainPath::new(4, 7777, 0, 0, 0).to_identifier();
+	let rw = grin_core::libtx::reward::output(&kit.kc, &grin_core::libtx::ProofBuilder::new(&kit.kc), &key_id, 0, false).unwrap();
+	let mut template = Block::new(&prev, &[], grin_core::pow::Difficulty::from_num(1), rw).unwrap();
+	template.header.timestamp = prev.timestamp + chrono::Duration::seconds(60);
+	template.header.pow.total_difficulty = prev.total_difficulty() + grin_core::pow::Difficulty::from_num(1);
+
+	let dir = format!("{}/mx_subject", work);
+	let _ = std::fs::remove_dir_all(&dir);
+	let chain = init_chain(&dir, kit.genesis.clone()).unwrap();
+	for id in main[1..].iter() {
+		chain.process_block(kit.blks[*id].block.clone(), Options::SKIP_POW).unwrap();
+	}
+	let mut kernels = vec![];
+	for r in &kit.blks {
+		for k in r.block.kernels() {
+			kernels.push(k.excess);
+		}
+	}
+	let m = Arc::new(MatrixCtx {
+		chain,
+		trunk: main.iter().map(|i| kit.blks[*i].block.clone()).collect(),
+		fork: fork.iter().map(|i| kit.blks[*i].block.clone()).collect(),
+		txs,
+		commits: kit.outs.iter().map(|o| o.commit).collect(),
+		out_ids: kit.outs.iter().map(|o| grin_core::core::OutputIdentifier::new(if o.coinbase { grin_core::core::OutputFeatures::Coinbase } else { grin_core::core::OutputFeatures::Plain }, &o.commit)).collect(),
+		kernels,
+		template,
+	});
+	let obs0 = {
+		let (h, hh) = (m.chain.head().unwrap(), m.chain.header_head().unwrap());
+		format!("head={} hhead={} roots={}", kit.bid(&h.last_block_h), kit.bid(&hh.last_block_h), chain_roots(&m.chain))
+	};
+	// --- every op once, alone (results as statistics; an unknown name is a harness error)
+	let mut stats: BTreeMap<String, u64> = BTreeMap::new();
+	for (i, name) in MATRIX_OPS.iter().enumerate() {
+		let r = matrix_call(&m, name, i as u64);
+		*stats.entry(format!("matrix:solo:{}:{}", name, r)).or_insert(0) += 1;
+	}
+	// --- the pairs
+	let n = MATRIX_OPS.len();
+	let mut pairs: Vec<(usize, usize)> = vec![];
+	for i in 0..n {
+		for j in i..n {
+			pairs.push((i, j));
+		}
+	}
+	if !thorough {
+		// a sample: all pairs of two write-class ops, and at least 6 pairs per op
+		let writers: Vec<usize> = (0..n)
+			.filter(|i| {
+				matches!(
+					MATRIX_OPS[*i],
+					"reset_chain_head" | "reset_prune_lists" | "process_block" | "process_block_header" | "sync_block_headers" | "validate_tx" | "verify_coinbase_maturity" | "validate" | "set_prev_root_only"
+						| "set_txhashset_roots" | "get_merkle_proof" | "get_merkle_proof_for_pos" | "txhashset_read" | "segmenter" | "compact" | "get_locator_hashes" | "Desegmenter::check_progress"
+				)
+			})
+			.collect();
+		let mut chosen: std::collections::BTreeSet<(usize, usize)> = Default::default();
+		for a in &writers {
+			for b2 in &writers {
+				if a <= b2 {
+					chosen.insert((*a, *b2));
+				}
+			}
+		}
+		for i in 0..n {
+			for _ in 0..6 {
+				let j = rng.below(n as u64) as usize;
+				chosen.insert((i.min(j), i.max(j)));
+			}
+		}
+		pairs = chosen.into_iter().collect();
+	}
+	let bound = Duration::from_secs(if thorough { 240 } else { 120 });
+	let t0 = Instant::now();
+	let mut k = 0u64;
+	for (i, j) in pairs.iter() {
+		let (a, b2) = (MATRIX_OPS[*i], MATRIX_OPS[*j]);
+		let gate = Arc::new(AtomicUsize::new(0));
+		let (txc, rxc) = mpsc::channel::<(usize, Vec<String>, bool)>();
+		for (side, name) in [(0usize, a), (1usize, b2)] {
+			let (m, gate, txc) = (m.clone(), gate.clone(), txc.clone());
+			let kk = k;
+			std::thread::spawn(move || {
+				setup_globals();
+				gate.fetch_add(1, Ordering::SeqCst);
+				let t0 = Instant::now();
+				while gate.load(Ordering::SeqCst) < 2 && t0.elapsed() < Duration::from_millis(200) {
+					std::hint::spin_loop();
+				}
+				let mut res = vec![];
+				let mut panicked = false;
+				for it in 0..2u64 {
+					match std::panic::catch_unwind(AssertUnwindSafe(|| matrix_call(&m, name, kk * 2 + it + side as u64))) {
+						Ok(r) => res.push(r),
+						Err(_) => {
+							panicked = true;
+							res.push("panic".into());
+						}
+					}
+				}
+				let _ = txc.send((side, res, panicked));
+			});
+		}
+		drop(txc);
+		k += 1;
+		let mut got = 0;
+		while got < 2 {
+			match rxc.recv_timeout(bound) {
+				Ok((side, res, panicked)) => {
+					got += 1;
+					let name = if side == 0 { a } else { b2 };
+					if panicked {
+						out.raw(&format!("#ORACLE-FAIL C17 matrix seed={}: {} panicked while {} ran on another thread (results {:?})", seed, name, if side == 0 { b2 } else { a }, res));
+					}
+					for r in res {
+						let class = if r == "ok" { "ok" } else if r == "panic" { "panic" } else { "err" };
+						*stats.entry(format!("matrix:pair-calls:{}", class)).or_insert(0) += 1;
+					}
+				}
+				Err(_) => {
+					out.raw(&format!(
+						"#ORACLE-FAIL C17 deadlock matrix seed={}: the pair ({} on one thread, {} on another, two calls each, released together) did not return within {:?} ({} of its 2 threads returned); {} pairs had completed before",
+						seed, a, b2, bound, got, k - 1
+					));
+					for (kx, v) in &stats {
+						out.raw(&format!("#STAT {}={}", kx, v));
+					}
+					out.flush();
+					std::process::exit(0);
+				}
+			}
+		}
+		let pa: Vec<&str> = matrix_table_ops(a).into_iter().chain(matrix_table_ops(a)).collect();
+		let pb: Vec<&str> = matrix_table_ops(b2).into_iter().chain(matrix_table_ops(b2)).collect();
+		out.line(&format!("conc pair seed={} progs={},{}", k, pa.join("+"), pb.join("+")), "finished");
+	}
+	*stats.entry("matrix:pairs".into()).or_insert(0) += pairs.len() as u64;
+	*stats.entry("matrix:ops".into()).or_insert(0) += n as u64;
+	*stats.entry("matrix:wall_ms".into()).or_insert(0) += t0.elapsed().as_millis() as u64;
+	// --- the node is where it was
+	let obs1 = {
+		let (h, hh) = (m.chain.head().unwrap(), m.chain.header_head().unwrap());
+		format!("head={} hhead={} roots={}", kit.bid(&h.last_block_h), kit.bid(&hh.last_block_h), chain_roots(&m.chain))
+	};
+	let mut verdict = "ok".to_string();
+	if obs0 != obs1 {
+		out.raw(&format!("#ORACLE-FAIL C17 matrix seed={}: after the pairs the node is at [{}], it was at [{}]", seed, obs1, obs0));
+		verdict = "state-differs".into();
+	}
+	if let Err(e) = m.chain.validate(false) {
+		out.raw(&format!("#ORACLE-FAIL C17 matrix seed={}: validate fails after the pairs: {}", seed, error_class(&e)));
+		verdict = "validate-fails".into();
+	}
+	out.line(&format!("conc matrix ops={} pairs={}", n, pairs.len()), &verdict);
+	for (kx, v) in &stats {
+		out.raw(&format!("#STAT {}={}", kx, v));
+	}
+	out.flush();
+}
+
 fn main() {
 	quiet_panics();
 	setup_globals();
@@ -4742,6 +5535,14 @@ fn main() {
 	}
 	if mode == "txcount" {
 		txcount(&mut out, &work, seed_from_env(), tier_thorough());
+		return;
+	}
+	if mode == "matrix" {
+		matrix(&mut out, &work, seed_from_env(), tier_thorough());
+		return;
+	}
+	if mode == "resets" {
+		resets(&mut out, &work, seed_from_env(), tier_thorough());
 		return;
 	}
 	if mode == "tie" {
@@ -4799,6 +5600,37 @@ fn main() {
 	}
 
 	out.line("conc tablecheck", "ok");
+
+	// how many separate views of the chain state each reader combines (checked against `views` over the
+	// regenerated table): the one-view oracles of `exec` (PmmrIndex, Locator, View/HeaderView through the
+	// Arcs) are applied to single-view ops only; the multi-view readers are classified, their results
+	// are only checked for what holds across views
+	for (op, n) in [
+		("get_unspent", 1),
+		("get_unspent_output_at", 1),
+		("validate_inputs", 1),
+		("get_merkle_proof", 1),
+		("get_locator_hashes", 1),
+		("get_last_n_output", 1),
+		("get_last_n_rangeproof", 1),
+		("get_last_n_kernel", 1),
+		("get_output_pos", 1),
+		("unspent_outputs_by_pmmr_index", 1),
+		("get_header_for_output", 1),
+		("set_txhashset_roots", 1),
+		("head", 1),
+		("head_header", 1),
+		("header_head", 1),
+		("get_block", 1),
+		("get_header_by_height", 2),
+		("validate_tx", 2),
+		("verify_coinbase_maturity", 4),
+		("fork_point", 4),
+		("block_height_range_to_pmmr_indices", 5),
+		("get_kernel_height", 8),
+	] {
+		out.line(&format!("conc views {}", op), &n.to_string());
+	}
 
 	let thorough = tier_thorough();
 	let mut cfgs = vec![];
